@@ -300,6 +300,8 @@ class Sim(object):
     self.monitors = []      # callables(sim) run at every pre-emption point
     self.switch_trace = []  # abstract trace at context switches (for distinct-interleaving count)
     self.owner_ident = _threading.get_ident()
+    self.state_fn = None        # world-supplied abstract state (hashable), sampled at context switches
+    self.abstract_states = set()
     self.opcode_roles = None
 
   # ---------------------------------------------------------------- bookkeeping
@@ -411,6 +413,11 @@ class Sim(object):
       self.switches += 1
       if len(self.switch_trace) < 400:
         self.switch_trace.append((frm.role if frm is not None else '-', nxt.role, nxt.desc))
+      if self.state_fn is not None and len(self.abstract_states) < 3000:
+        try:
+          self.abstract_states.add(self.state_fn())
+        except Exception:
+          pass
     if nxt.state == BLOCKED:
       nxt.timed_out = not nxt.cond()
     nxt.state = RUNNABLE
